@@ -419,11 +419,27 @@ def run_console_lines(ctx, state, recs, tag):
         try:
             res = w.call({"op": "line", "text": text, "yes": False})
         except Died as d:
+            w.kill()
+            w = None
+            if d.cls == "hang":
+                # the replay file of this leg is the single line in a fresh session of this state: a hang is
+                # reported when it is a property of that (it reproduces there); a watchdog expiry that only
+                # happened behind the several hundred earlier lines of a long session is counted, not reported
+                w2 = console_prelude(ctx, state)
+                again = w2 is None
+                if w2 is not None:
+                    try:
+                        w2.call({"op": "line", "text": text, "yes": False})
+                    except Died as d2:
+                        again = d2.cls == "hang"
+                    w2.kill()
+                if not again:
+                    ctx.bump("hangs_not_reproduced_in_fresh_session")
+                    vlib.log(f"[c08] NOTE watchdog expired for {text!r} in a long {state} session; a fresh session answers")
+                    continue
             ctx.mismatch(d.cls, "console:" + (rec["toks"][0] if rec["toks"] else ""), leg="lines", state=state, text=text,
                          expected=rec["exp"][state], actual=d.cls, script=script, **death_fields(d))
             ctx.note("lines", (state, text), (d.cls, d.info.get("site")))
-            w.kill()
-            w = None
             continue
         n = judge_line(ctx, "lines", state, rec, text, res, n, script)
         if res.get("ms", 0) > 300:
